@@ -40,9 +40,10 @@ fn strategy() -> impl Strategy<Value = History> {
             c
         }),
         proptest::collection::vec((0usize..3, start_counter(), any::<bool>()), 1..5),
-        proptest::collection::vec(prop_oneof![16 => auth, 2 => reg, 1 => fault, 4 => (any::<u16>(), any::<bool>(), any::<bool>(), any::<bool>()).prop_map(|(target, up, uv, extra_uv)| Op::CtapAuth { target, up, uv, extra_uv })], 2..41),
+        prop_oneof![2 => Just(Disc::ForcedDiscoverable), 2 => Just(Disc::Full), 1 => Just(Disc::OnlyNonDiscoverable)],
+        proptest::collection::vec(prop_oneof![16 => auth, 3 => reg, 1 => fault, 4 => (any::<u16>(), any::<bool>(), any::<bool>(), any::<bool>()).prop_map(|(target, up, uv, extra_uv)| Op::CtapAuth { target, up, uv, extra_uv })], 2..41),
     )
-        .prop_map(|(store, cfg, mut preload, mut ops)| {
+        .prop_map(|(store, cfg, mut preload, disc, mut ops)| {
             if store != StoreKind::Ref {
                 // the shipped stores look credentials up by id only (known finding D5 under C05): one RP
                 for p in preload.iter_mut() {
@@ -56,7 +57,8 @@ fn strategy() -> impl Strategy<Value = History> {
                     }
                 }
             }
-            History { store, disc: Disc::ForcedDiscoverable, cfg, preload, ops }
+            // the capability only exists on the reference store (the shipped stores force discoverability)
+            History { store, disc: if store == StoreKind::Ref { disc } else { Disc::ForcedDiscoverable }, cfg, preload, ops }
         })
 }
 
@@ -85,7 +87,7 @@ fn check(ctx: &mut Ctx, h: &History) -> Result<(), String> {
 }
 
 pub fn run(ctx: &mut Ctx) {
-    ctx.rule = "histories of 2-40 assertions through Client and at the CTAP2 level (there also with up=false / uv=false and a user-validation step that reports exactly what was asked), plus occasional registrations, interleaved over 1-4 pre-loaded credentials on up to 3 RPs, with start counters from {none, 0, 1, 2^31-1, 2^31, 2^32-3, 2^32-2, 2^32-1, random}, targeted by allow list or discovered, on the reference store, MemoryStore and the Option store, counters for new credentials on/off. Non-trivial = at least two successful assertions on counted credentials, or at least one with a start value within 2 of the maximum; distinct by history.".into();
+    ctx.rule = "histories of 2-40 assertions through Client and at the CTAP2 level (there also with up=false / uv=false and a user-validation step that reports exactly what was asked), plus occasional registrations, interleaved over 1-4 pre-loaded credentials on up to 3 RPs, with start counters from {none, 0, 1, 2^31-1, 2^31, 2^32-3, 2^32-2, 2^32-1, random}, targeted by allow list or discovered, on the reference store (capability full / forced discoverable / non-discoverable only), MemoryStore and the Option store, counters for new credentials on/off. Non-trivial = at least two successful assertions on counted credentials, or at least one with a start value within 2 of the maximum; distinct by history.".into();
     ctx.assumptions = vec![
         "per-credential model: below the maximum each success reports previous+1 and that value is what the store then holds; at the maximum the reported and stored value is not smaller and there is no panic".into(),
         "credentials without counter: report 0, record unchanged, no update call (reference store log)".into(),
